@@ -50,7 +50,11 @@ Cmd(r) ==
   /\ held[r.g] = <<>>
   /\ UNCHANGED <<owner, readers, held>>
 
-KnownEdge(r) == <<r.k, BagOf(Classes(r.g)), r.c>> \in EdgeSet
+\* an acquisition in a context the miner never saw does not stop the validation: it is
+\* printed (the check then fails as "mined model incomplete", an infrastructure verdict)
+KnownEdge(r) ==
+  IF <<r.k, BagOf(Classes(r.g)), r.c>> \in EdgeSet THEN TRUE
+  ELSE PrintT(<<"UNKNOWN_EDGE", ToJson([k |-> r.k, held |-> Classes(r.g), c |-> r.c])>>)
 
 Acq(r) ==
   /\ owner[r.m] = 0 /\ readers[r.m] = {}          \* mutual exclusion (non-reentrant)
